@@ -145,7 +145,9 @@ class MultiAgentProblem(  # type: ignore[misc]
         return res
 
     def clone(self):
-        new_p = MultiAgentProblem(self._name, self._env)
+        new_p = MultiAgentProblem(
+            self._name, self._env, initial_defaults=self._initial_defaults.copy()
+        )
         new_p.ma_environment._fluents = self.ma_environment._fluents.copy()
         new_p.ma_environment._fluents_defaults = (
             self.ma_environment._fluents_defaults.copy()
@@ -156,7 +158,6 @@ class MultiAgentProblem(  # type: ignore[misc]
         new_p._objects = self._objects[:]
         new_p._initial_value = self._initial_value.copy()
         new_p._goals = self._goals[:]
-        new_p._initial_defaults = self._initial_defaults.copy()
         return new_p
 
     def has_name(self, name: str) -> bool:
@@ -215,6 +216,10 @@ class MultiAgentProblem(  # type: ignore[misc]
         fluent_exp, value_exp = self._env.expression_manager.auto_promote(fluent, value)
         if not fluent_exp.type.is_compatible(value_exp.type):
             raise UPTypeError("Initial value assignment has not compatible types!")
+        if not value_exp.is_constant():
+            raise UPExpressionDefinitionError(
+                f"The initial value of {fluent_exp} must be a constant: {value_exp} is not."
+            )
         self._initial_value[fluent_exp] = value_exp
 
     def initial_value(
